@@ -45,6 +45,19 @@ structure Timeouts where
 def tcpTunnelTimeout (cfg : Timeouts) : Nat := cfg.idle
 def udpSessionTimeout (cfg : Timeouts) : Nat := cfg.udp
 
+/-- the UDP listeners apply `timeouts.udp` through `set_idle_timeout`; the variant of seeded change C13c ignores the
+    value 0 there ("not configured"), so a disabled UDP timeout never reaches the association -/
+def udpSessionTimeoutIgnoringZero (cfg : Timeouts) : Nat := if cfg.udp > 0 then cfg.udp else cfg.idle
+
+/-- the variant of seeded change C13d: data relayed on the splice path does not refresh `last_read` -/
+def stepStaleOnSplice (T : Nat) (s : S) (e : Ev) : S :=
+  match s.closedAt with
+  | some _ => s
+  | none =>
+    match e with
+    | .data _ _ => s
+    | .tick t => if isTimeout t s.lastC T && isTimeout t s.lastS T then { s with closedAt := some t } else s
+
 /-- as it was at the pinned commit: the registry default was copied BEFORE the configuration was stored -/
 def tcpTunnelTimeoutOld (_cfg : Timeouts) : Nat := ({} : Timeouts).idle
 
